@@ -8,6 +8,7 @@
 #             2 harness error (build failure, non-replayable failure, ...)
 set -u
 ROOT="$(cd "$(dirname "${BASH_SOURCE[0]}")" && pwd)"
+ORIG_PWD="$PWD"
 export VERIF_ROOT="$ROOT"
 export CARGO_NET_OFFLINE=true
 cd "$ROOT/sim" || exit 2
@@ -45,6 +46,7 @@ case "$cmd" in
         ;;
     replay)
         f="${2:?file}"
+        case "$f" in /*) ;; *) f="$ORIG_PWD/$f" ;; esac
         if grep -q '"mode":"miri"' "$f" 2>/dev/null; then
             seed=$(grep -o '"miri_seed":[0-9]*' "$f" | grep -o '[0-9]*$')
             phase=$(grep -o '"miri_phase":"[a-z]*"' "$f" | grep -o '[a-z]*"$' | tr -d '"')
